@@ -12,11 +12,17 @@ A history is a list of ops (JSON-able lists):
                                request entity (same id) through _sendIq from inside the callback,
                                at most `budget` times in total
   ["lib", lkind]               library-internal request through the issuing layer's own entry point
+  ["app", kind, hs, he, rs, re, budget, SYNC] / ["lib", lkind, SYNC]
+                               the same, where SYNC = [[mid, typ, shape], ...] are iq stanzas the BOTTOM of
+                               the stack delivers upward from inside its send() of this request, before it
+                               returns -- the deterministic equivalent of a reader thread that processes
+                               the reply while the sending thread is still inside toLower()/send()
   ["dlv", mid, typ, shape]     incoming iq with (model) id `mid`, type result/error/get/set
   ["oth", tag, mid]            incoming non-iq stanza carrying id `mid`
 Model ids are small naturals; the real id is str(base + mid) where base is the value of the
 process-wide counter when the history starts (mid >= FOREIGN are non-numeric foreign ids).
 """
+import threading
 from yowsup.layers import YowLayer, YowParallelLayer, YowLayerEvent
 from yowsup.layers.interface import YowInterfaceLayer
 from yowsup.layers.network import YowNetworkLayer
@@ -127,18 +133,63 @@ def shape_of(kind):
 
 
 class Bottom(YowLayer):
+    """bottom recorder; `on_send` (set by the rig) is called from inside send(), after the stanza has been
+    recorded and before send() returns: it may deliver stanzas upward synchronously"""
     def __init__(self):
         super(Bottom, self).__init__()
         self.sent = []
         self.log = None
+        self.on_send = None
 
     def send(self, node):
         self.sent.append(node)
         if self.log is not None:
             self.log.append(("down", node))
+        if self.on_send is not None:
+            self.on_send(node)
 
     def receive(self, node):
         self.toUpper(node)
+
+
+class GuardLock(object):
+    """Stands in for a layer's `lock` (threading.Lock, taken by YowLayer.toLower): same mutual exclusion, but
+    a second acquire by the thread that already holds it raises instead of blocking forever -- a delivery
+    from inside a send whose processing sends down again would otherwise hang the single-threaded rig."""
+    def __init__(self):
+        self._lock = threading.Lock()
+        self._owner = None
+
+    def acquire(self, blocking=True, timeout=-1):
+        if self._owner == threading.get_ident():
+            raise RuntimeError("toLower re-entered by the thread that is inside it (would deadlock)")
+        ok = self._lock.acquire(blocking, timeout)
+        if ok:
+            self._owner = threading.get_ident()
+        return ok
+
+    def release(self):
+        self._owner = None
+        self._lock.release()
+
+    def locked(self):
+        return self._lock.locked()
+
+    def __enter__(self):
+        self.acquire()
+        return self
+
+    def __exit__(self, *a):
+        self.release()
+
+
+def op_sync(op):
+    """the stanzas delivered from inside the send of a request op"""
+    if op[0] == "app":
+        return op[7] if len(op) > 7 else []
+    if op[0] == "lib":
+        return op[2] if len(op) > 2 else []
+    return []
 
 
 class Tap(YowLayer):
@@ -230,7 +281,10 @@ def id_counter_probe():
 
 
 class Rig(object):
-    def __init__(self, groups=True, media=True, privacy=True, profiles=True):
+    def __init__(self, groups=True, media=True, privacy=True, profiles=True, reader_thread=False):
+        # reader_thread: the deliveries from inside a send are made by a SECOND thread while the sending
+        # thread waits inside Bottom.send (the literal scenario); default: by the sending thread itself
+        self.reader_thread = reader_thread
         self.manager = FakeManager(keys())
         layers = (Bottom, AxolotlControlLayer,
                   YowParallelLayer((AxolotlSendLayer, AxolotlReceivelayer)),
@@ -250,6 +304,15 @@ class Rig(object):
         self.log = []
         for o in (self.bottom, self.tap, self.top, self.manager):
             o.log = self.log
+        plain_lock = type(threading.Lock())
+        for i in range(7):
+            lay = self.stack.getLayer(i)
+            for l in (lay,) + tuple(getattr(lay, "sublayers", ())):
+                if isinstance(getattr(l, "lock", None), plain_lock):
+                    l.lock = GuardLock()
+        self.script = None      # stanzas the bottom delivers from inside its next send of a request
+        self.cur_lib = None     # library request kind being issued (its id is known only at the bottom)
+        self.bottom.on_send = self._on_bottom_send
         self.base = id_counter_probe()
         self.requests = {}     # real id -> (origin, kind, object)
         self.by_token = {}     # closure-captured token (prekey id / message id) -> real id
@@ -299,7 +362,38 @@ class Rig(object):
         self.app._sendIq(ent, ok if hs else None, err if he else None)
         return rid
 
+    def _on_bottom_send(self, node):
+        """called from inside Bottom.send: deliver the scripted stanzas upward before send() returns"""
+        if not self.script or node.tag != "iq" or node["type"] not in ("get", "set"):
+            return
+        script, self.script = self.script, None
+        if self.cur_lib is not None and node["id"] not in self.requests:
+            self.requests[node["id"]] = ("lib", self.cur_lib, node)
+        def deliver():
+            for mid, typ, shape in script:
+                self.log.append(("nested", mid, typ))
+                try:
+                    self.bottom.toUpper(self.reply_node(mid, typ, shape))
+                except Exception as e:   # a reader thread would see it; the sender does not
+                    self.log.append(("exc", e, mid))
+        if not self.reader_thread:
+            return deliver()
+        t = threading.Thread(target=deliver, name="c08-reader")
+        t.daemon = True
+        t.start()
+        t.join(20)
+        if t.is_alive():
+            raise RuntimeError("reader thread blocked while the sender is inside send()")
+
     def lib_request(self, lkind):
+        self.cur_lib = lkind
+        try:
+            return self._lib_request(lkind)
+        finally:
+            self.cur_lib = None
+
+    def _lib_request(self, lkind):
+        nested = bool(self.script)
         nsent = len(self.bottom.sent)
         tok = "%s#%d" % (lkind, len(self.requests))
         if lkind in ("fetch_ctl", "fetch_send", "fetch_recv"):
@@ -330,7 +424,7 @@ class Rig(object):
         else:
             raise ValueError(lkind)
         new = self.bottom.sent[nsent:]
-        assert len(new) == 1 and new[0].tag == "iq", "lib request %s sent %r" % (lkind, new)
+        assert new and new[0].tag == "iq" and (nested or len(new) == 1), "lib request %s sent %r" % (lkind, new)
         rid = new[0]["id"]
         self.by_token[tok] = rid
         self.requests[rid] = ("lib", lkind, new[0])
@@ -374,22 +468,28 @@ class Rig(object):
     def run_op(self, op):
         """execute one op; returns the canonical event list, in temporal order"""
         del self.log[:]
-        ev = []
         if op[0] in ("app", "lib"):
-            rid = self.app_request(op[1], bool(op[2]), bool(op[3]), *[int(x) for x in op[4:7]]) \
-                if op[0] == "app" else self.lib_request(op[1])
-            ev.append(["issued", self.mid(rid)])
-            for what, n in self.log:
-                ev.append(["sent", self.mid(n["id"])] if what == "down" and n.tag == "iq" else ["?", what])
-            return ev
+            sync = [list(d) for d in op_sync(op)]
+            self.script = sync or None
+            try:
+                rid = self.app_request(op[1], bool(op[2]), bool(op[3]), *[int(x) for x in op[4:7]]) \
+                    if op[0] == "app" else self.lib_request(op[1])
+            finally:
+                self.script = None
+            return [["issued", self.mid(rid)]] + self.decode_log(request=True)
         node = self.reply_node(op[1], op[2], op[3]) if op[0] == "dlv" else self.other_node(op[1], op[2])
-        exc = None
         try:
             self.stack.receive(node)
         except Exception as e:   # the key-upload error callback raises by design
-            exc = e
+            self.log.append(("exc", e, op[1] if op[0] == "dlv" else None))
+        return self.decode_log()
+
+    def decode_log(self, request=False):
+        ev = []
         for rec in list(self.log):
             what = rec[0]
+            if what == "nested":
+                continue
             if what == "appcb":
                 ev.append(["appcb", self.mid(rec[1]), rec[2], self._req_mid(rec[3]), rec[4]])
             elif what == "libcb":
@@ -405,7 +505,7 @@ class Rig(object):
                 elif n.tag == "iq" and n["type"] == "result":
                     ev.append(["pong", self.mid(n["id"])])
                 elif n.tag == "iq":
-                    ev.append(["sent", self.mid(n["id"])])   # a request re-sent from inside a callback
+                    ev.append(["sent", self.mid(n["id"])])   # a request going down (first time or re-sent)
                 else:
                     ev.append(["down", n.tag])
             elif what in ("iface", "top"):
@@ -414,13 +514,14 @@ class Rig(object):
                     ev.append([what, self.mid(e.getId()), e.getType()] if what == "iface" else [what, self.mid(e.getId())])
                 else:
                     ev.append([what + "-other", e.getTag()])
-        if exc is not None:
-            if str(exc) == "Sent keys were not accepted":
-                # AxolotlControlLayer.onSentKeysError (the registered error callback) raises by design;
-                # it carries no request, so the request is taken to be the delivered id
-                ev.append(["libcb", "keyupload", "error", op[1]])
-            else:
-                ev.append(["exception", type(exc).__name__, str(exc)[:120]])
+            elif what == "exc":
+                exc = rec[1]
+                if str(exc) == "Sent keys were not accepted":
+                    # AxolotlControlLayer.onSentKeysError (the registered error callback) raises by design;
+                    # it carries no request, so the request is taken to be the delivered id
+                    ev.append(["libcb", "keyupload", "error", rec[2]])
+                else:
+                    ev.append(["exception", type(exc).__name__, str(exc)[:120]])
         return ev
 
     def registries(self):
